@@ -524,6 +524,7 @@ class Rig:
         self.msgs = []          # provider log: ('resp'|'report'|'fault', tx, state, err, errmsg?) in emission order
         self.plines = []        # provider model lines
         self.pimpl = []         # implementation answers per provider line
+        self.registered = set(self.ops)      # operations currently registered in their SCO (changes at run time)
         self.inflight = []      # model view: ids that have been generated and not yet dispatched
         self.id_log = []        # one slot per request in the order the requests reached the provider: the id it got
         self.unhooked = 0       # requests whose id did not come from SdcProvider.generate_transaction_id
@@ -682,7 +683,7 @@ class Rig:
 
     def _log_recv(self, spec, tx):
         h = spec['op']
-        if h in self.ops:
+        if spec.get('known', h in self.ops):
             si, op = self.ops[h]
             sco, mode = str(si), ('q' if op.delayed_processing else 'd')
         else:
@@ -749,8 +750,9 @@ class Rig:
         h = spec['op']
         kind = spec.get('kind') or self._kind(h)
         self._cur_spec = spec
+        spec['known'] = h in self.registered      # registered when the request arrives
         nested = any(spec.get(k) for k in ('after_id', 'in_handler', 'before_response', 'at_lock'))
-        snap = self.snapshot() if (h not in self.ops and not nested) else None
+        snap = self.snapshot() if (not spec['known'] and not nested) else None
         execs = self.executions
         fut = None
         try:
@@ -790,6 +792,10 @@ class Rig:
             c.futures[fid] = fut
             spec['parts_before_response'] = [int(l.split()[1]) for l in c.lines
                                              if l.startswith('part ') and int(l.split()[2]) == spec['tx']]
+            # the early-part window of this call: parts this consumer got before the response, from the first own one on
+            part_tx = [int(l.split()[2]) for l in c.lines if l.startswith('part ')]
+            window = len(part_tx) - part_tx.index(spec['tx']) if spec['tx'] in part_tx else 0
+            spec['window_ok'] = window <= spec_window(self.cap)
             c.lines.append(f"response {fid} {spec['tx']} {self._resp_state(spec['tx'])}")
             c.impl.append(c.newly_done())
         return fut
@@ -863,6 +869,20 @@ class Rig:
         c.lines.append(f'drop {fid}')
         c.impl.append('-')
 
+    # ---- operations come and go at run time
+    def unregister(self, h):
+        if h in self.registered:
+            self.scos[self.ops[h][0]].unregister_operation_by_handle(h)
+            self.registered.discard(h)
+
+    def register(self, h):
+        if h in self.ops and h not in self.registered:
+            si, old = self.ops[h]
+            new = type(old)(h, old.operation_target_handle, self._handler, delayed_processing=old.delayed_processing)
+            self.scos[si].register_operation(new)
+            self.ops[h] = (si, new)
+            self.registered.add(h)
+
     def run_lock_events(self, consumer):
         evs, consumer.lock_events = consumer.lock_events, []
         if evs:
@@ -881,6 +901,10 @@ class Rig:
                 self.deliver(ev[1], ev[2])
             elif k == 'drop':
                 self.drop(ev[1], ev[2])
+            elif k == 'unregister':
+                self.unregister(ev[1])
+            elif k == 'register':
+                self.register(ev[1])
             else:
                 raise ValueError(k)
 
@@ -904,6 +928,12 @@ class Rig:
 
 
 # ------------------------------------------------------------------------------------------------ oracle (provider + end to end)
+
+def spec_window(cap):
+    """what the buffer of early parts must at least hold, whatever its implementation: the reports of a completely filled
+    operation queue plus the running operation (theorem generated_buffer_covers_queue_backlog is the same bound)"""
+    return 3 * (cap + 1)
+
 
 def collapse(w):
     out = []
@@ -935,8 +965,8 @@ def provider_oracle(ctx, rig, specs, script):
         resps = [m for m in ms if m[0] == 'resp']
         reports = [m for m in ms if m[0] == 'report']
         word_emitted = [m[2] for m in ms if m[0] in ('resp', 'report')]
-        what = f"{spec['op']} ({'unknown' if spec['op'] not in rig.ops else ('queued' if rig.ops[spec['op']][1].delayed_processing else 'direct')}, handler {spec['outcome']})"
-        known = spec['op'] in rig.ops
+        known = spec.get('known', spec['op'] in rig.ops)
+        what = f"{spec['op']} ({'not registered' if not known else ('queued' if rig.ops[spec['op']][1].delayed_processing else 'direct')}, handler {spec['outcome']})"
         if any(m[0] == 'fault' for m in ms):
             ctx.fail('invocation:soap-fault-instead-of-state', f'{what}: tx {tx} answered with a SOAP fault, no invocation state reported', script)
             continue
@@ -1045,9 +1075,11 @@ def gen_script(rng, rig_ops, cap, n_consumers, size, maxlen):
                 evs.append(('tick', rng.randrange(3)))
             elif x < 0.95:
                 evs.append(('deliver', rng.randrange(n_consumers), rng.choice([None, 1, 1, 2, 3])))
-            elif specs and inside is None:
+            elif specs and inside is None and x < 0.975:
                 s = rng.choice(specs)
                 evs.append(('drop', s['consumer'], s['id']))
+            elif inside in (None, 'before_response'):
+                evs.append((rng.choice(['unregister', 'unregister', 'register']), rng.choice(sorted(rig_ops))))
         return evs
     events = mk_events(size, 0)
     return events, specs
@@ -1112,7 +1144,7 @@ def run_script(ctx, events, specs, modes, model_cases, check_parts=True, shrink=
             model_cases.append((canon, f'consumer{c.idx}', cl, ci))
         done_tx = sum(1 for s in specs if s.get('tx') is not None)
         for s in specs:
-            ctx.count('request:' + ('unknown' if s['op'] not in rig.ops else ('direct' if modes.get(s['op']) else 'queued')) + ':' + s['outcome'])
+            ctx.count('request:' + ('unknown' if not s.get('known', s['op'] in rig.ops) else ('direct' if modes.get(s['op']) else 'queued')) + ':' + s['outcome'])
             if s['op'] in rig.ops:
                 ctx.count('kind:' + rig._kind(s['op']))
         return rig, canon, done_tx
@@ -1207,6 +1239,7 @@ class ConsumerRig:
             p.start()
         self._trace = []
         self._lock_results = []
+        self.spec_window = spec_window(10)     # overwritten with the real queue capacity by the run
         self.new_manager()
         self._cache = {}
 
@@ -1449,7 +1482,7 @@ def consumer_case(ctx, crig, case, model_cases, tx, fid):
                 note_parts(lev, lres)
             fut = r
             responded = True
-    window_ok = window <= crig.maxlen
+    window_ok = window <= max(crig.maxlen, crig.spec_window)   # never less than the specification bound
     # ---- oracle
     sig_case = {'consumer-case': case}
     final_states = [s for s in word if s in FINALS]
@@ -1478,12 +1511,13 @@ def consumer_case(ctx, crig, case, model_cases, tx, fid):
     return fut
 
 
-def run_consumer_exhaustive(ctx, model_cases):
+def run_consumer_exhaustive(ctx, model_cases, cap):
     crig = ConsumerRig()
+    crig.spec_window = spec_window(cap)
     try:
         maxlen = crig.maxlen
         words = [[f] for f in FINALS] + [['Wait', 'Start', f] for f in FINALS]
-        bursts = [0, 1, 3, maxlen - 3, maxlen - 2, maxlen - 1, maxlen, maxlen + 1, maxlen + 7]
+        bursts = sorted({b for b in [0, 1, 3, 5, 20, crig.spec_window - 3, maxlen - 3, maxlen - 2, maxlen - 1, maxlen, maxlen + 1, maxlen + 7] if b >= 0})
         tx, fid = 0, 0
         n = 0
         for fresh in (True, False):
@@ -1503,7 +1537,7 @@ def run_consumer_exhaustive(ctx, model_cases):
                                     # parts processed exactly at the lock of call_operation: every count, for the small bursts
                                     locks = range(0, len(word) - pos + 2) if burst in (0, 1, maxlen - 1) else (0,)
                                     for lock in locks:
-                                        if ctx.tier == 'quick' and (n + ctx.seed) % 4 and (burst not in (0, maxlen - 1) or not fresh):
+                                        if ctx.tier == 'quick' and (n + ctx.seed) % 4 and (burst not in (0, 5, maxlen - 1) or not fresh):
                                             n += 1
                                             continue
                                         n += 1
@@ -1708,6 +1742,20 @@ def fixed_scripts(ops, cap):
                  call(s_val, 'raise', at_lock=[['deliver', 0, None]]),
                  call(s_act, 'FinMod', before_response=[['tick', 0], ['deliver', 0, 1]], at_lock=[['deliver', 0, 1], ['deliver', 0, 1]]),
                  call(s_ctx, 'Fail', consumer=1, at_lock=[['tick', 0], ['deliver', 1, None]]), ['deliver', 0, None], ['deliver', 1, None]]))
+    # the reports of other consumers' transactions fill the early-part window of a call (report-before-response race)
+    cid[0] = 0
+    res.append(('foreign-reports-in-the-early-window', {},
+                [call(s_val, 'Fin', consumer=1), call(s_val, 'FinMod', consumer=1), call(s_val, 'raise', consumer=1), call(s_val, 'Fin', consumer=1),
+                 call(s_str, 'FinMod', consumer=0, before_response=[['tick', 0], ['tick', 2], ['tick', 2], ['tick', 2], ['tick', 2], ['deliver', 0, None]]),
+                 call(s_act, 'Fin', consumer=0, before_response=[['tick', 0], ['deliver', 0, 1]],
+                      at_lock=[['deliver', 0, None]]),
+                 ['deliver', 1, None]]))
+    # operations unregistered and registered again at run time: a request for an unregistered operation is an unknown one
+    cid[0] = 0
+    res.append(('unregister-at-run-time', {s_val: True},
+                [call(s_str, 'Fin'), call(s_val, 'FinMod'), ['tick', 0], ['unregister', s_str], ['unregister', s_val],
+                 call(s_str, 'Fin'), call(s_val, 'Fin', consumer=1), call(s_ctx, 'Fin'), ['tick', 0], ['register', s_str],
+                 call(s_str, 'raise'), ['tick', 0], ['register', s_val], call(s_val, 'Cnclld'), ['deliver', 0, None], ['deliver', 1, None]]))
     # a future dropped by the application
     cid[0] = 0
     res.append(('dropped-future', {}, [call(s_str, 'Fin'), ['drop', 0, 1], ['tick', 0], ['deliver', 0, None], call(s_str, 'Fin'), ['tick', 0]]))
@@ -1750,7 +1798,7 @@ def run(ctx):
     ctx.notes['t_scripts_s'] = round(time.time() - t0, 1)
     # ---- 3. consumer orderings
     t0 = time.time()
-    run_consumer_exhaustive(ctx, model_cases)
+    run_consumer_exhaustive(ctx, model_cases, cap)
     run_consumer_random(ctx, model_cases)
     ctx.notes['t_consumer_s'] = round(time.time() - t0, 1)
     ctx.exhaustive = ctx.tier == 'thorough'
